@@ -32,7 +32,7 @@ def check(chk: Check) -> None:
                             'with nothing in between', floor=1)
     R2 = chk.rule('C08.R2', 'no binary-float source (float(...), float literal, math float function, int/int true '
                             'division, random) flows into the result of + - * / comparisons, unary minus, or of '
-                            'round/floor/ceil/abs/int/sum/min/max', floor=20)
+                            'round/floor/ceil/abs/int/sum/min/max', floor=12)
     R3 = chk.rule('C08.R3', 'the decimal context is never touched (28 digits, half-even is the stdlib default)', floor=1)
     chk.decided += ['what this repository contributes to exactness: literal text -> Decimal constructor directly; no float on any '
                     'arithmetic / numeric-builtin result path; default context']
